@@ -66,4 +66,11 @@ structure NonceState where
   entries : List (Str × Int)
 deriving Repr, DecidableEq
 
+/-- one request of a history: the header instances it carries, the wall clock and the cache clock when it is handled -/
+structure Req where
+  vals : List Str
+  now : Int
+  mono : Int
+deriving Repr
+
 end VgiVerif.PP
